@@ -100,6 +100,8 @@ pub struct UnitStats {
     pub solver_max_time_s: f64,
     pub cross_checked: u64,
     pub cross_disagree: u64,
+    /// queries cvc5 gave up on that CBMC + kissat decided (thorough tier)
+    pub cbmc_decided: u64,
     pub decided_by_interval: u64,
     pub decided_by_cache: u64,
     pub simplified_nodes: u64,
@@ -601,6 +603,7 @@ impl Explorer {
         stats.solver_max_time_s = q1.max_time_s;
         stats.cross_checked = q1.cross_checked - q0.cross_checked;
         stats.cross_disagree = q1.cross_disagree - q0.cross_disagree;
+        stats.cbmc_decided = q1.cbmc_decided - q0.cbmc_decided;
         stats.wall_s = t0.elapsed().as_secs_f64();
         UnitReport { unit: unit.to_string(), stats, paths }
     }
